@@ -187,13 +187,26 @@ package xmss
 //@   loop 3 assert[XF] hashfunction <= 2 ==> forall q_ :: 0 <= q_ && q_ < 32 ==> pk[32*i+q_] == spec.chain(hashfunction, spec.sub(pubSeed, 32), store(arr(old(addr)), 5, i), spec.sub(sig[32*i:], 32), wDigit(msg, wotsParams, i), wotsParams.w - 1 - wDigit(msg, wotsParams, i))[q_]
 //@   loop 3 invariant[XF] hashfunction <= 2 ==> forall p_ :: 0 <= p_ && p_ < 32*i ==> pk[p_] == wpkByte(hashfunction, pubSeed, arr(old(addr)), sig, msg, wotsParams, p_)
 
+// L-tree (RFC 8391 Algorithm 8): the leaf is node 0 of the last level of spec.lnode over the WOTS+ public key.
+//@ pred ltab(len, t, l) := (len == 67 && ((t == 0 && l == 67) || (t == 1 && l == 34) || (t == 2 && l == 17) || (t == 3 && l == 9) || (t == 4 && l == 5) || (t == 5 && l == 3) || (t == 6 && l == 2) || (t == 7 && l == 1))) || (len == 133 && ((t == 0 && l == 133) || (t == 1 && l == 67) || (t == 2 && l == 34) || (t == 3 && l == 17) || (t == 4 && l == 9) || (t == 5 && l == 5) || (t == 6 && l == 3) || (t == 7 && l == 2) || (t == 8 && l == 1))) || (len == 34 && ((t == 0 && l == 34) || (t == 1 && l == 17) || (t == 2 && l == 9) || (t == 3 && l == 5) || (t == 4 && l == 3) || (t == 5 && l == 2) || (t == 6 && l == 1)))
+//@ pred ltreeT(len) := ite(len == 67, 7, ite(len == 133, 8, 6))
 //@ func lTree
+//@   nooverflow
+//@   use xmss.L_randHash_cong
+//@   hide spec.randHash
 //@   requires wotsOK(params) && len(wotsPK) >= params.keySize && len(leaf) >= 32 && len(pubSeed) >= 32
 //@   ensures forall k_ :: 0 <= k_ && k_ < 5 ==> addr[k_] == old(addr[k_])
+//@   ensures[XF] hashFunction <= 2 ==> forall q_ :: 0 <= q_ && q_ < 32 ==> leaf[q_] == spec.lnode(hashFunction, spec.sub(pubSeed, 32), arr(old(addr)), old(wotsPK), params.len, ltreeT(params.len), 0)[q_]
 //@   assigns leaf[0:32], wotsPK, *addr
 //@   loop 1 invariant 1 <= l && l <= params.len && n == 32 && forall k_ :: 0 <= k_ && k_ < 5 ==> addr[k_] == old(addr[k_])
+//@   loop 1 invariant[XF] ltab(params.len, height, l) && l == spec.llen(params.len, height) && addr[5] == height
+//@   loop 1 invariant[XF] hashFunction <= 2 ==> forall p_ :: 0 <= p_ && p_ < 32*l ==> wotsPK[p_] == spec.lnode(hashFunction, spec.sub(pubSeed, 32), arr(old(addr)), old(wotsPK), params.len, height, p_/32)[p_%32]
 //@   loop 1 decreases l
 //@   loop 2 invariant 0 <= i && i <= bound && bound == l / 2 && forall k_ :: 0 <= k_ && k_ < 5 ==> addr[k_] == old(addr[k_])
+//@   loop 2 invariant[XF] addr[5] == height
+//@   loop 2 assert[XF] hashFunction <= 2 ==> forall q_ :: 0 <= q_ && q_ < 32 ==> wotsPK[32*i+q_] == spec.lnode(hashFunction, spec.sub(pubSeed, 32), arr(old(addr)), old(wotsPK), params.len, height+1, i)[q_]
+//@   loop 2 invariant[XF] hashFunction <= 2 ==> forall p_ :: 0 <= p_ && p_ < 32*i ==> wotsPK[p_] == spec.lnode(hashFunction, spec.sub(pubSeed, 32), arr(old(addr)), old(wotsPK), params.len, height+1, p_/32)[p_%32]
+//@   loop 2 invariant[XF] hashFunction <= 2 ==> forall p_ :: 64*i <= p_ && p_ < 32*l ==> wotsPK[p_] == spec.lnode(hashFunction, spec.sub(pubSeed, 32), arr(old(addr)), old(wotsPK), params.len, height, p_/32)[p_%32]
 
 // Functional contract of the authentication-path walk: root = fold(h), the Merkle fold of RFC 8391 Algorithm 13
 // (spec/00_core.smt2: fold, randHash, shrn).  The congruence lemmas say randHash depends on its address only through
